@@ -138,7 +138,7 @@ def check_item(spec):
     s.set("rlimit", 100_000_000)
     s.set("timeout", 60_000)
     allv = sorted(poly.vars | poly.aux)
-    declared_aux = set(poly.aux) | {v for v in poly.vars if v.startswith("_ret")}
+    declared_aux = set(poly.aux) | {v for v in poly.vars if v == "_ret" or v.startswith("_ret.")}
     foreign = [v for v in poly.vars if v not in ins and v not in declared_aux]
     if foreign:
         finding("foreign-variable", "model mentions %s, neither argument bits nor declared auxiliaries" % foreign)
@@ -158,8 +158,12 @@ def check_item(spec):
     support = []
     for b in ins:
         flipped = [z3.substitute(t, (xs[b], z3.Not(xs[b]))) for t in retz]
-        if st.check(s0, z3.Or(*[z3.Xor(a, c) for a, c in zip(retz, flipped)])) == "sat":
+        v0 = st.check(s0, z3.Or(*[z3.Xor(a, c) for a, c in zip(retz, flipped)]))
+        if v0 == "sat":
             support.append(b)
+        elif v0 != "unsat":
+            res.update(status="inconclusive", note="support query: solver " + v0)
+            return st.into(res)
     missing = [b for b in support if b not in poly.vars]
     if missing:
         finding("missing-variable", "the function depends on %s but the model does not mention them" % missing)
@@ -214,10 +218,13 @@ def check_item(spec):
         res.update(status="inconclusive", note="solver " + v)
     if cmin == 0:
         v = st.check(s, count == 0, estar_gt(0))
-        v2 = st.check(s, count == 0, E < 0)
+        m = s.model() if v == "sat" else None
+        v2 = "unsat" if v == "sat" else st.check(s, count == 0, E < 0)
         if v == "sat" or v2 == "sat":
-            m = s.model()
+            m = m or s.model()
             finding("zero-not-at-energy-zero", "input %s is a zero of the function but its minimum energy is not 0" % show(m), {"inputs": show(m)})
+        elif v != "unsat" or v2 != "unsat":
+            res.update(status="inconclusive", note="solver %s/%s" % (v, v2))
     # sensitivity: the energy must not be constant when the count is not
     if int(item_id(spec), 16) % 4 == 0:
         cmax = st.check(s, count > cmin)
